@@ -43,7 +43,7 @@ ASSUMPTIONS = [
     "hierarchy in arch.info.register_classes whose number equals the colour",
     "frames on which alloc_frame raises or does not finish are counted, not judged (that is property C29): exceptions, more than 6 (hand-built) / 8 "
     "(real targets) spill rounds -- an unallocatable frame doubles in size every round and ppci gives up only after 30 -- and CPU limits of "
-    "20 s per hand-built frame / IR module and 60 s per C compilation",
+    "20 s per hand-built frame, 10 s per IR module and 60 s per C compilation",
     "hand-built frames use a stub instruction selector that answers MiniGen's spill trees with abstract slot-load / slot-store instructions",
     "IR pressure modules use the operators among + - ^ | & for which the target can select a three-instruction probe function of that type",
 ]
@@ -56,7 +56,7 @@ CLAIM = {"text": "inside the enumerated bound every read in every allocated fram
 REAL_TARGETS = ["x86_64", "arm", "arm:thumb", "riscv", "riscv:rvc", "m68k", "mips", "avr", "msp430", "xtensa", "or1k", "microblaze", "stm8"]
 CPU_TINY = 20
 CPU_REAL = 60
-CPU_IR = 20
+CPU_IR = 10
 
 
 # =================================================================================================== the model
